@@ -38,6 +38,8 @@ type Execution struct {
 	Accesses []Access
 	Panics   []string
 	Livelock bool
+	Finished []int // thread ids in the order they completed
+	Switches int   // context switches of the schedule
 	Trace    []string // thread:loc per step (kept only when recording)
 
 	points []point
@@ -136,10 +138,16 @@ func run(bodies []func(), prefix []int, horizon int, record bool) *Execution {
 		}
 		sc.x.points = append(sc.x.points, point{enabled: enabled, runningEnabled: runningEnabled, chosen: choice})
 		sc.x.Choices = append(sc.x.Choices, choice)
+		if running >= 0 && enabled[choice] != running {
+			sc.x.Switches++
+		}
 		running = enabled[choice]
 		sc.cur = running
 		sc.threads[running].resume <- struct{}{}
 		<-sc.parked
+		if sc.threads[running].done {
+			sc.x.Finished = append(sc.x.Finished, running)
+		}
 		steps++
 		if steps > horizon {
 			sc.x.Livelock = true
